@@ -225,6 +225,9 @@ func Parse(block []rune, pos int) (pt ParsedTokens, syntaxHighlighted string) {
 			default:
 				// quoted and escaped function names aren't vetted
 				pt.Unsafe = pt.Unsafe || pt.ExpectFunc
+				// ...and a code block glued to an escaped character (`try {...}\ `) is no
+				// longer a code block: its text would be run as a command name
+				pt.Unsafe = pt.Unsafe || (i > 0 && block[i-1] == '}')
 				pt.Escaped = true
 				ansiColour(hlEscaped, block[i])
 			}
